@@ -265,6 +265,10 @@ func (g *sgen) presentation(out *[]attrSpec) {
 		*out = append(*out, attrSpec{g.r.Pick("id", "class", "unicode", "glyph-name", "data-x", "aria-level", "lang", "name"), g.r.Pick("1000", "0050", "0100", "1.0", "007", "+5", "10px", "1e3")})
 		g.hit("numeric-looking-name-attribute")
 	}
+	if g.r.Chance(1, 14) { // (K131 repaired: attributes in the xml namespace are kept; xml:space="preserve" stays K25)
+		*out = append(*out, attrSpec{g.r.Pick("xml:lang", "xml:id", "xml:base"), g.r.Pick("en", "de-CH", "x1", "base/")})
+		g.hit("xml-attribute")
+	}
 	if g.known {
 		switch g.r.Intn(14) {
 		case 0:
